@@ -201,6 +201,10 @@ class Generator(CodeGenerator):
         output_builder.with_file("rpc.h", "rpc.h.j2", {"fcp": fcp})
 
         for protocol in fcp.get_protocols():
+            if protocol == "default":
+                # fcp.h already is the header of the default protocol; a namespace
+                # called `default` is not valid C++
+                continue
             output_builder.with_file(
                 "fcp_" + protocol + ".h",
                 "fcp.h.j2",
